@@ -236,11 +236,38 @@ func (g *treeGen) arg(depth int, inQ bool) *Node {
 		return &Node{K: "key", T: genKey(g.r)}
 	case x < 14 && !inQ:
 		return g.qt(depth)
+	case x < 16 && depth < g.maxDepth:
+		return g.cat(depth, inQ)
 	}
 	if depth >= g.maxDepth || g.budget <= 0 {
 		return &Node{K: "lit", T: genLit(g.r, inQ)}
 	}
 	return g.call(depth+1, inQ)
+}
+
+// cat: adjacent pieces without blanks form one argument: pre{0}post, {0}{1}, {p2 a}-{1}
+var catLits = []string{"pre", "post", "-", ":", "=", "/", ".", "7", "x", "é", "a,b", "@", "#", "0", "--"}
+
+func (g *treeGen) cat(depth int, inQ bool) *Node {
+	n := &Node{K: "cat"}
+	parts := g.r.Range(2, 4)
+	stm := 0
+	for i := 0; i < parts; i++ {
+		lastLit := len(n.A) > 0 && n.A[len(n.A)-1].K == "lit"
+		if !lastLit && g.r.Intn(2) == 0 {
+			n.A = append(n.A, &Node{K: "lit", T: catLits[g.r.Intn(len(catLits))]})
+		} else {
+			n.A = append(n.A, g.stmt(depth+1, inQ))
+			stm++
+		}
+	}
+	if stm == 0 {
+		n.A = append(n.A, g.stmt(depth+1, inQ))
+	}
+	if len(n.A) < 2 {
+		n.A = append(n.A, g.stmt(depth+1, inQ))
+	}
+	return n
 }
 
 // qt: "text {stmt} text" as one quoted argument (documented by example:
@@ -364,7 +391,7 @@ func collect(items []*Node) (stmts []*Node, calls []*Node, argLists []*[]*Node) 
 		case "qt":
 			argLists = append(argLists, &n.A)
 		}
-		for _, a := range n.A {
+		for _, a := range n.A { // (the pieces of a "cat" are walked, its list is not offered for insertions)
 			walk(a)
 		}
 	}
@@ -441,9 +468,11 @@ func denseTrees() [][]*Node {
 	call := func(f string, a ...*Node) *Node { return &Node{K: "call", T: f, A: a} }
 	text := func(s string) *Node { return &Node{K: "text", T: s} }
 	qt := func(a ...*Node) *Node { return &Node{K: "qt", A: a} }
+	cat := func(a ...*Node) *Node { return &Node{K: "cat", A: a} }
 	leaves := func() []*Node {
 		return []*Node{lit("w"), lit("not found"), lit(""), lit("7"), m(1), k("src"), call("p0", lit("c")),
-			qt(m(0), lit(" z")), qt(call("p2", m(0), lit("2")))}
+			qt(m(0), lit(" z")), qt(call("p2", m(0), lit("2"))),
+			cat(m(0), m(1)), cat(lit("pre"), m(0), lit("post")), cat(m(0), lit("-"), call("p2", lit("b"), k("k")))}
 	}
 	var out [][]*Node
 	// two arguments, all leaf pairs
